@@ -231,7 +231,7 @@ def critical_followers(tier, seed, start):
     return ps, i
 
 
-def flag_programs(tier, seed, start):
+def flag_programs(tier, seed, start, prop="C14", only_ops=None):
     """`~` attaches to exactly the operator it precedes - for EVERY operator, also the operand-less ones.  Two branches:
     branch 0 is `INPUT [~]X operands -> tapb`, branch 1 logs A in the other step.  With `~X` the operator (and the tapb after it)
     belongs to step 1, so B must come after A (A = step 0 of branch 1); without `~` it belongs to step 0 and branch 1's `~-> tapa`
@@ -239,6 +239,8 @@ def flag_programs(tier, seed, start):
     ps = []
     i = start
     for nm in OP_NAMES:
+        if only_ops is not None and nm not in only_ops:
+            continue
         for t in INPUT_TYPES:
             probe = Ctx(random.Random(3))
             st0 = OPS[nm](probe, t)
@@ -268,10 +270,10 @@ def flag_programs(tier, seed, start):
                     what = "an operator without `~` belongs to the current step"
                 L = list(ctx.decls)
                 L.append("let m = %s;" % text)
-                L.append("vassert!(cnt(140) == 1 && cnt(141) == 1 && %s, \"C14[%s]: %s\");" % (order, pid, what))
+                L.append("vassert!(cnt(140) == 1 && cnt(141) == 1 && %s, \"%s[%s]: %s\");" % (order, prop, pid, what))
                 L.append("reset_calls();")
                 L.append("let r = %s;" % st.ref(inp))
-                L.append("vassert!(%s && m.1 == %s, \"C14[%s]: value == documented chain\");" % (cmpf("m.0", "r"), kb, pid))
+                L.append("vassert!(%s && m.1 == %s, \"%s[%s]: value == documented chain\");" % (cmpf("m.0", "r"), kb, prop, pid))
                 L.append("vcover!(true, \"end reached\");")
                 w = 1 + (40 if nm == "?&!>" else 0) + (4 if t[0] == "it" else 0)
                 prog = Program(pid, text, "    " + "\n    ".join(L), desc=dict(operator=nm, deferred=deferred, input_type=str(t)), group="flags", role=dict(kind="join"), unwind=44 if "usize" in str(st.out) and "vec" in str(st.out) else 12, weight=w)
